@@ -88,6 +88,14 @@ Section Imported.
   Variable roots : list path.
   Variable s : index.
 
+  (** the memo [imported_fixtures_cache]: valid for the same text and the same
+      definitions version *)
+  Definition imp_hit (file : path) (c : cached) : option (list string) :=
+    match alookup file (imp_cache s) with
+    | Some (h, v, names) => if (h =? c_text c) && (v =? version s) then Some names else None
+    | None => None
+    end.
+
   Fixpoint imported_fuel (fuel : nat) (file : path) (vis : list path) : option (list string * list path) :=
     match fuel with
     | O => None
@@ -97,6 +105,9 @@ Section Imported.
         match content dk s file with
         | None => Some ([], vis)
         | Some c =>
+            match imp_hit file c with
+            | Some names => Some (names, vis)
+            | None =>
             if negb (c_ok c) then Some ([], vis) else
             fold_left
               (fun (acc : option (list string * list path)) (e : edge) =>
@@ -117,6 +128,7 @@ Section Imported.
                      end
                  end)
               (c_edges c) (Some ([], vis))
+            end
         end
     end.
 
@@ -169,6 +181,32 @@ Section Imported.
           end
         end
       end
+    end.
+
+  (** the conftest files whose imported-fixture set the cascade looks up (each lookup
+      is a top-level [get_imported_fixtures] call and leaves a memo entry) *)
+  Definition known_file (c : path) : bool := disk_file dk c || in_cache s c.
+  Fixpoint touched_walk (flt : fdef -> bool) (dn : list fdef) (n : string) (dirs : list path) : list path :=
+    match dirs with
+    | [] => []
+    | dir :: r =>
+        let c := conftest_py :: dir in
+        match last_binding flt dn c with
+        | Some _ => []
+        | None =>
+            if known_file c
+            then c :: (if is_imported n c && is_some (find flt dn) then [] else touched_walk flt dn n r)
+            else touched_walk flt dn n r
+        end
+    end.
+  Definition touched_closest (flt : fdef -> bool) (F : path) (n : string) : list path :=
+    let dn := defs_named s n in
+    match dn with
+    | [] => []
+    | _ => match last_binding flt dn F with
+           | Some _ => []
+           | None => touched_walk flt dn n (ancestors (tl F))
+           end
     end.
 
   Definition closest (F : path) (n : string) : option fdef := closest_with (fun _ => true) F n.
@@ -324,7 +362,7 @@ Section Imported.
                    end) (dedup String.eqb (imported c)) acc
     else acc.
 
-  Definition available (F : path) : list fdef :=
+  Definition available_cold (F : path) : list fdef :=
     let acc := add_last F [] in
     let acc := match F with
                | [] => acc
@@ -337,6 +375,15 @@ Section Imported.
     let acc := add_first (fun d => d_plugin d && negb (d_third d)) acc in
     let acc := add_first d_third acc in
     isort (fun a b => String.leb (d_name a) (d_name b)) acc.
+
+  (** [get_available_fixtures]: memo keyed by the definitions version *)
+  Definition av_hit (F : path) : option (list fdef) :=
+    match alookup F (av_cache s) with
+    | Some (v, l) => if v =? version s then Some l else None
+    | None => None
+    end.
+  Definition available (F : path) : list fdef :=
+    match av_hit F with Some l => l | None => available_cold F end.
 
   (** ** [resolve_fixture_for_file] *)
   Definition best_conftest (F : path) (dn : list fdef) : option fdef :=
